@@ -177,3 +177,82 @@ def _bundle_contract(assign):
 
 for _assign in _it.product(_ELEM_TYPES, repeat=3):
     CONTRACTS.append(_bundle_contract(_assign))
+
+
+# =================================================================================================
+# SemanticAnalyzer.visit_ForStmt: a zero step — written as a literal or reached through an int variable — is reported and
+# nothing of the loop is analysed; otherwise the body is analysed once PER ITERATION VALUE, each time in a fresh child
+# scope in which the iterator is defined, and the analyser's scope is the enclosing one again afterwards.
+# (Two iteration values, body of one statement: bounded list lengths.)
+# =================================================================================================
+VISITS, FOR_ERRS, DEFS = [], [], []
+
+
+def _visit_eff(ex, a):
+    VISITS.append((a.node, ex.args_ns.self.current_scope))
+    return None
+
+
+def _child_eff(ex, a):
+    return _SObj(["SymbolTable"], _fresh("child_scope"), lazy=True)
+
+
+def _define_eff(ex, a):
+    DEFS.append((a.self if hasattr(a, "self") else None, a.symbol))
+    return None
+
+
+def _for_err(ex, a):
+    FOR_ERRS.append(a.message)
+    return None
+
+
+def _giv_eff(ex, a):
+    return [z3.Int("it0"), z3.Int("it1")]
+
+
+def _resolve_eff(ex, a):
+    return z3.Int("resolved_step")
+
+
+def _for_contract(step_kind):
+    step_t = {"literal": ty.Int, "variable": ty.TConcrete("s"), "default": ty.TConcrete(1)}[step_kind]
+
+    def post(a, res):
+        step = a.node.step if step_kind != "variable" else z3.Int("resolved_step")
+        zero = (step == 0)
+        outer = a.old.self.current_scope
+        back = a.self.current_scope is (outer._obj if hasattr(outer, "_obj") else outer)
+        body_stmt = a.node.body[0]
+        full = (len(VISITS) == 2 and all(n is body_stmt for n, _sc in VISITS) and VISITS[0][1] is not VISITS[1][1]
+                and all(sc is not a.self.current_scope for _n, sc in VISITS) and len(DEFS) == 2
+                and all(d[1].name == a.node.iterator_name for d in DEFS) and not FOR_ERRS and back)
+        none = (len(VISITS) == 0 and len(FOR_ERRS) == 1 and back)
+        if isinstance(zero, bool):
+            return none if zero else full
+        # symbolic step: the path decides
+        return z3.If(zero, z3.BoolVal(bool(none)), z3.BoolVal(bool(full)))
+
+    return Contract(
+        qualname=AN + "visit_ForStmt",
+        params={"self": ty.TObj("SemanticAnalyzer", only=("SemanticAnalyzer",)),
+                "node": ty.TObj("ForStmt", only=("ForStmt",), ftypes=(("step", step_t), ("iterator_name", ty.TConcrete("i")),
+                                                                    ("body", ty.TTuple((ty.TObj("Statement", only=("ExprStmt",)),)))))},
+        requires=[("(reset)", lambda a: (VISITS.clear(), FOR_ERRS.clear(), DEFS.clear()) and True),
+                  ("the analyser has a current scope", lambda a: a.self.current_scope is not None)],
+        ensures=[("zero step: one error, nothing analysed; otherwise the body is analysed per iteration value in its own child scope with the iterator defined; scope restored", post)],
+        uses={"SemanticAnalyzer.visit": Contract(qualname=AN + "visit", params={"self": ty.TOpaque("s"), "node": ty.TOpaque("n")}, effect=_visit_eff, verify=False, note="records (statement, scope)"),
+              "SymbolTable.create_child_scope": Contract(qualname="dsl_compiler/src/semantic/symbol_table.py::SymbolTable.create_child_scope", params={"self": ty.TOpaque("s")}, effect=_child_eff, verify=False, note="fresh child scope"),
+              "SymbolTable.define": Contract(qualname="dsl_compiler/src/semantic/symbol_table.py::SymbolTable.define", params={"self": ty.TOpaque("s"), "symbol": ty.TOpaque("y")}, effect=_define_eff, verify=False, note="proved above; records the definition"),
+              "ProgramDiagnostics.error": Contract(qualname=DIAG + "error", params={"self": ty.TOpaque("d"), "message": ty.TOpaque("m"), "stage": ty.TOpaque("s"), "node": ty.TOpaque("n")},
+                                                   defaults={"stage": None, "node": None}, effect=_for_err, verify=False, note="records the report"),
+              "ForStmt.get_iteration_values": Contract(qualname="dsl_compiler/src/ast/statements.py::ForStmt.get_iteration_values", params={"self": ty.TOpaque("s"), "constant_resolver": ty.TOpaque("r")},
+                                                       defaults={"constant_resolver": None}, effect=_giv_eff, verify=False, note="two symbolic iteration values (sequence proved in contracts.c16)"),
+              "SemanticAnalyzer._resolve_for_loop_constant": Contract(qualname=AN + "_resolve_for_loop_constant", params={"self": ty.TOpaque("s"), "name": ty.TOpaque("n")}, effect=_resolve_eff, verify=False,
+                                                                     note="value of the int variable (any integer)")},
+        dynamic_types={"self": {"diagnostics": ty.TObj("ProgramDiagnostics", only=("ProgramDiagnostics",)), "current_scope": ty.TObj("SymbolTable", only=("SymbolTable",))}},
+        properties=("C14", "C16"), min_obligations=1, no_replay=True, note=f"step given as {step_kind}")
+
+
+for _sk in ("literal", "variable", "default"):
+    CONTRACTS.append(_for_contract(_sk))
